@@ -1,4 +1,5 @@
 CONSTANT TraceDevs = {"FontPriorityGate", "LogoIgnoresFit"}
+CONSTANT KeepGoing = FALSE
 INIT Init
 NEXT Next
 POSTCONDITION Accepted
